@@ -21,6 +21,17 @@
    set of downstream scripts for the bound, and each is replayed against the real relay (harness/drivers/c11m.py),
    which must hold the same conversation and return the same result.
 
+   The handshake (_handshake) depends on the relay's configuration and on what the downstream advertises:
+     Tls       "off" | "req" (tls_required) | "imm" (tls_immediately)      PeerTls   the EHLO reply offers STARTTLS
+     Creds     credentials are configured                                  PeerAuth  the EHLO reply offers AUTH
+   "imm": handshake right after connecting, then banner and EHLO.  Otherwise banner, EHLO (HELO after a 500), and when TLS is
+   required or offered: STARTTLS - a 220 starts the TLS handshake inside the same command Timeout, any other reply that is
+   not an error leaves the session in clear text (also when TLS is required: see X_TlsRequiredMeansEncrypted), an error
+   reply ends the attempt only when TLS is required - and EHLO again.  A failed TLS handshake raises nothing
+   (IO.encrypt_socket_client swallows the SSLError); the socket is gone with it, so the next command fails as an I/O error.
+   With credentials: AUTH, unless the extensions known at that point do not list it - then the attempt fails as "500 unknown
+   command" without a word to the downstream.
+
    Deviation switches (FALSE = the code as it is now):
      KF_FlushOutside   the reply to pipelined message data is awaited outside the data Timeout  (D12, fixed df614a7)
      KF_RsetBypass     RSET does not clear LmtpClient's list of accepted recipients (seeded change C19b-m2): after a
@@ -31,7 +42,8 @@
                        also for recipients refused with the other class                        (D28) *)
 EXTENDS Integers, Sequences, FiniteSets, TLC
 
-CONSTANTS NRcpt, Lmtp, Pipelining, NMsg, KF_FlushOutside, KF_FirstRcptClass, KF_RsetBypass, KF_RcptBeforeMail
+CONSTANTS NRcpt, Lmtp, Pipelining, NMsg, KF_FlushOutside, KF_FirstRcptClass, KF_RsetBypass, KF_RcptBeforeMail,
+          Tls, PeerTls, Creds, PeerAuth
 
 Rcpts == 1..NRcpt
 None == "none"
@@ -54,12 +66,18 @@ VARIABLES pc,       \* where the client is
           viol,
           msg,      \* number of the message being delivered
           done,     \* results of the messages delivered before it on this connection
-          carry     \* accepted recipients of earlier transactions that LmtpClient still remembers (0 unless KF_RsetBypass)
-vars == <<pc, wait, after, queued, scope, rep, pipe, alive, mute, pdata, left, result, inexc, hist, viol, msg, done, carry>>
+          carry,    \* accepted recipients of earlier transactions that LmtpClient still remembers (0 unless KF_RsetBypass)
+          ext,      \* the client's extension table holds what the downstream advertised (an accepted EHLO filled it)
+          enc,      \* a TLS handshake has completed on this connection
+          round     \* 0: first EHLO, 1: the EHLO after STARTTLS
+hvars == <<ext, enc, round>>
+vars == <<pc, wait, after, queued, scope, rep, pipe, alive, mute, pdata, left, result, inexc, hist, viol, msg, done, carry, ext, enc, round>>
 
 Keys == {<<"conn", 0>>, <<"banner", 0>>, <<"ehlo", 0>>, <<"helo", 0>>, <<"mail", 0>>, <<"data", 0>>, <<"rset", 0>>,
-         <<"quit", 0>>} \cup {<<"rcpt", i>> : i \in Rcpts} \cup {<<"eod", i>> : i \in 0..(NRcpt * NMsg)}
+         <<"quit", 0>>, <<"ehlo", 1>>, <<"helo", 1>>, <<"starttls", 0>>, <<"tls", 0>>, <<"auth", 0>>} \cup {<<"rcpt", i>> : i \in Rcpts} \cup {<<"eod", i>> : i \in 0..(NRcpt * NMsg)}
 Answers(k) == IF k[1] = "conn" THEN {"ok", "drop", "stall"}
+              ELSE IF k[1] = "tls" THEN {"ok", "fail", "stall"}            \* the TLS handshake itself
+              ELSE IF k[1] = "starttls" THEN {"ok", "ok2", "t4", "p5", "bad", "drop", "stall"}    \* ok: 220, ok2: another 2xx
               ELSE IF k[1] = "ehlo" /\ ~Lmtp THEN {"ok", "t4", "p5", "e500", "bad", "drop", "stall"}
               ELSE {"ok", "t4", "p5", "bad", "drop", "stall"}
 IsErr(a) == a \in {"t4", "p5", "e500"}
@@ -70,6 +88,7 @@ NoResult == [k |-> "none"]
 Init == /\ pc = "connect" /\ wait = <<>> /\ after = None /\ queued = <<>> /\ scope = "none"
         /\ rep = [k \in Keys |-> None] /\ pipe = FALSE /\ alive = TRUE /\ mute = FALSE /\ pdata = FALSE /\ left = <<>>
         /\ result = NoResult /\ inexc = None /\ hist = <<>> /\ viol = {} /\ msg = 1 /\ done = <<>> /\ carry = 0
+        /\ ext = FALSE /\ enc = FALSE /\ round = 0
 
 (* ---- begin a blocking call: read everything requested so far plus `more`, under Timeout `sc`, then go to `nxt` *)
 Await(more, sc, nxt) ==
@@ -88,7 +107,10 @@ Silent(k) == mute \/ (pdata /\ k[1] # "eod") \/ (k[1] = "eod" /\ k[2] > NRcpt)  
 Read ==
   /\ pc = "read" /\ wait # <<>>
   /\ LET k == Head(wait) IN
-     IF Silent(k)
+     IF ~alive
+     THEN \* the socket went with a failed TLS handshake: writing the command is an I/O error
+          /\ Abort /\ UNCHANGED <<after, rep, pipe, alive, mute, pdata, left, hist, viol>>
+     ELSE IF Silent(k)
      THEN \* nothing will ever arrive: only an enclosing Timeout ends the call
           /\ UNCHANGED <<after, rep, pipe, alive, mute, pdata, left, hist>>
           /\ IF scope = "none" THEN /\ pc' = "hung" /\ viol' = viol \cup {"C14_Unbounded"}
@@ -105,6 +127,11 @@ Read ==
                        ELSE Abort /\ UNCHANGED viol
                ELSE IF a = "drop"
                THEN /\ alive' = FALSE /\ Abort /\ UNCHANGED <<rep, mute, left, viol>>
+               ELSE IF a = "fail"
+               THEN \* the handshake failed: SSLError swallowed, socket closed; the client goes on and finds out at the next write
+                    /\ alive' = FALSE /\ rep' = [rep EXCEPT ![k] = a] /\ wait' = Tail(wait)
+                    /\ pc' = (IF Tail(wait) = <<>> THEN after ELSE "read")
+                    /\ UNCHANGED <<queued, scope, mute, left, result, inexc, viol>>
                ELSE IF a = "bad"
                THEN \* BadReply: the connection is still there, and so are the commands already written
                     /\ left' = Tail(wait) /\ Abort /\ UNCHANGED <<rep, alive, mute, viol>>
@@ -128,25 +155,53 @@ Leftover ==
   /\ UNCHANGED <<pc, wait, after, queued, scope, rep, pipe, result, inexc, viol>>
 
 (* ---- _connect, _handshake *)
-Connect == /\ pc = "connect" /\ Await(<< <<"conn", 0>> >>, "conn", "banner")
-           /\ UNCHANGED <<rep, pipe, alive, mute, pdata, left, result, inexc, hist, viol>>
-Banner == /\ pc = "banner" /\ Await(<< <<"banner", 0>> >>, "cmd", "banner_chk")
-          /\ UNCHANGED <<rep, pipe, alive, mute, pdata, left, result, inexc, hist, viol>>
-\* an error reply to banner / EHLO / HELO is a SmtpRelayError raised in _run: the result, then _disconnect
+U0 == UNCHANGED <<rep, pipe, alive, mute, pdata, left, result, inexc, hist, viol>>
+Connect == /\ pc = "connect" /\ Await(<< <<"conn", 0>> >>, "conn", IF Tls = "imm" THEN "tls_imm" ELSE "banner")
+           /\ U0 /\ UNCHANGED hvars
+\* tls_immediately: _encrypt under the command Timeout, before the banner
+TlsImm == /\ pc = "tls_imm" /\ Await(<< <<"tls", 0>> >>, "cmd", "tls_imm_done") /\ U0 /\ UNCHANGED hvars
+TlsImmDone == /\ pc = "tls_imm_done" /\ enc' = (rep[<<"tls", 0>>] = "ok") /\ pc' = "banner"
+              /\ UNCHANGED <<wait, after, queued, scope, ext, round>> /\ U0
+Banner == /\ pc = "banner" /\ Await(<< <<"banner", 0>> >>, "cmd", "banner_chk") /\ U0 /\ UNCHANGED hvars
+\* an error reply to banner / EHLO / HELO / STARTTLS / AUTH is a SmtpRelayError raised in _run: the result, then _disconnect
 HandshakeFail(a) == /\ result' = Raise(Cls(a)) /\ pc' = "disconnect"
                     /\ UNCHANGED <<wait, after, queued, scope, rep, pipe, alive, mute, pdata, left, inexc, hist, viol>>
-BannerChk == /\ pc = "banner_chk"
+BannerChk == /\ pc = "banner_chk" /\ UNCHANGED hvars
              /\ IF IsErr(rep[<<"banner", 0>>]) THEN HandshakeFail(rep[<<"banner", 0>>])
-                ELSE /\ Await(<< <<"ehlo", 0>> >>, "cmd", "ehlo_chk") /\ UNCHANGED <<rep, pipe, alive, mute, pdata, left, result, inexc, hist, viol>>
-EhloChk == /\ pc = "ehlo_chk"
-           /\ LET a == rep[<<"ehlo", 0>>] IN
+                ELSE /\ Await(<< <<"ehlo", 0>> >>, "cmd", "ehlo_chk") /\ U0
+\* where _handshake goes once EHLO / HELO has been accepted
+AfterHello(x) == IF round = 0 /\ Tls # "imm" /\ (Tls = "req" \/ (x /\ PeerTls)) THEN "starttls"
+                 ELSE IF Creds THEN "auth" ELSE "mail"
+EhloChk == /\ pc = "ehlo_chk" /\ UNCHANGED <<enc, round>>
+           /\ LET a == rep[<<"ehlo", round>>] IN
               IF a = "e500" /\ ~Lmtp
-              THEN /\ Await(<< <<"helo", 0>> >>, "cmd", "helo_chk") /\ UNCHANGED <<rep, pipe, alive, mute, pdata, left, result, inexc, hist, viol>>
-              ELSE IF IsErr(a) THEN HandshakeFail(a)
-              ELSE /\ pipe' = Pipelining /\ pc' = "mail"
+              THEN /\ Await(<< <<"helo", round>> >>, "cmd", "helo_chk") /\ U0 /\ UNCHANGED ext
+              ELSE IF IsErr(a) THEN HandshakeFail(a) /\ UNCHANGED ext
+              ELSE \* (only a 250 fills the extension table)
+                   /\ pipe' = Pipelining /\ ext' = TRUE /\ pc' = AfterHello(TRUE)
                    /\ UNCHANGED <<wait, after, queued, scope, rep, alive, mute, pdata, left, result, inexc, hist, viol>>
-HeloChk == /\ pc = "helo_chk"
-           /\ IF IsErr(rep[<<"helo", 0>>]) THEN HandshakeFail(rep[<<"helo", 0>>])
+\* HELO accepted: the extension table is left as it was - empty after the first EHLO was refused, but what the clear-text
+\* EHLO listed when it is the EHLO after STARTTLS that was answered 500
+HeloChk == /\ pc = "helo_chk" /\ UNCHANGED hvars
+           /\ IF IsErr(rep[<<"helo", round>>]) THEN HandshakeFail(rep[<<"helo", round>>])
+              ELSE /\ pc' = AfterHello(ext) /\ UNCHANGED <<wait, after, queued, scope, rep, pipe, alive, mute, pdata, left, result, inexc, hist, viol>>
+\* _starttls: the command, its reply and - after a 220 - the TLS handshake, all inside one command Timeout
+StartTls == /\ pc = "starttls" /\ Await(<< <<"starttls", 0>> >>, "cmd", "starttls_chk") /\ U0 /\ UNCHANGED hvars
+StartTlsChk == /\ pc = "starttls_chk" /\ UNCHANGED hvars /\ U0
+               /\ IF rep[<<"starttls", 0>>] = "ok" THEN Await(<< <<"tls", 0>> >>, "cmd", "starttls_done")
+                  ELSE pc' = "starttls_done" /\ UNCHANGED <<wait, after, queued, scope>>
+StartTlsDone == /\ pc = "starttls_done" /\ UNCHANGED ext
+                /\ LET a == rep[<<"starttls", 0>>] IN
+                   IF IsErr(a) /\ Tls = "req" THEN HandshakeFail(a) /\ UNCHANGED <<enc, round>>
+                   ELSE /\ enc' = (rep[<<"tls", 0>>] = "ok") /\ round' = 1
+                        /\ Await(<< <<"ehlo", 1>> >>, "cmd", "ehlo_chk") /\ U0
+\* _authenticate: Client.auth answers "500 unknown command" itself when the extension table does not list AUTH
+Auth == /\ pc = "auth" /\ UNCHANGED hvars
+        /\ IF ext /\ PeerAuth THEN Await(<< <<"auth", 0>> >>, "cmd", "auth_chk") /\ U0
+           ELSE /\ result' = Raise("P") /\ pc' = "disconnect"
+                /\ UNCHANGED <<wait, after, queued, scope, rep, pipe, alive, mute, pdata, left, inexc, hist, viol>>
+AuthChk == /\ pc = "auth_chk" /\ UNCHANGED hvars
+           /\ IF IsErr(rep[<<"auth", 0>>]) THEN HandshakeFail(rep[<<"auth", 0>>])
               ELSE /\ pc' = "mail" /\ UNCHANGED <<wait, after, queued, scope, rep, pipe, alive, mute, pdata, left, result, inexc, hist, viol>>
 
 (* ---- _send_envelope: MAIL, RCPT*, DATA *)
@@ -253,14 +308,20 @@ NextMsg ==
      ELSE /\ pc' = "disconnect" /\ UNCHANGED <<msg, done, result, rep, carry>>
   /\ UNCHANGED <<wait, after, queued, scope, pipe, alive, mute, pdata, left, inexc, hist, viol>>
 
-Core == Read \/ Leftover \/ Connect \/ Banner \/ BannerChk \/ EhloChk \/ HeloChk \/ Mail \/ MailChk \/ RcptNext \/ Data \/ Check
-        \/ DeliverExc \/ SendData \/ DataChk \/ Disconnect \/ Closed
-Next == (Core /\ UNCHANGED <<msg, done, carry>>) \/ NextMsg
+Handshake == Connect \/ TlsImm \/ TlsImmDone \/ Banner \/ BannerChk \/ EhloChk \/ HeloChk \/ StartTls \/ StartTlsChk \/ StartTlsDone
+             \/ Auth \/ AuthChk
+Core == Read \/ Leftover \/ Mail \/ MailChk \/ RcptNext \/ Data \/ Check \/ DeliverExc \/ SendData \/ DataChk \/ Disconnect \/ Closed
+Next == ((Handshake \/ (Core /\ UNCHANGED hvars)) /\ UNCHANGED <<msg, done, carry>>) \/ (NextMsg /\ UNCHANGED hvars)
 Spec == Init /\ [][Next]_vars
 
 (* ------------------------------------------------------------------ properties *)
 Got(s, i) == rep[<<s, i>>]
-Failures == {n \in 1..Len(hist) : hist[n].m = msg /\ hist[n].a # "ok" /\ hist[n].s \notin {"quit", "rset"}}
+\* (a refused STARTTLS is no failure when TLS is not required: the delivery goes on in clear text)
+Failures == {n \in 1..Len(hist) : /\ hist[n].m = msg /\ hist[n].a \notin {"ok", "ok2"} /\ hist[n].s \notin {"quit", "rset"}
+                                   /\ ~(hist[n].s = "starttls" /\ hist[n].a \in {"t4", "p5"} /\ Tls # "req")}
+\* the relay is told to authenticate and the downstream does not offer AUTH: a permanent failure of the relay's own making
+NoAuthOffered == Creds /\ pc \in {"next", "done"} /\ rep[<<"auth", 0>>] = None /\ hist # <<>> /\ result = Raise("P")
+                 /\ \A n \in 1..Len(hist) : hist[n].s \notin {"mail", "auth"}
 \* a message's delivery is over (its result is final): judged here, once per message
 Over == pc \in {"next", "done"}
 \* (DATA refused after every recipient was refused is a consequence of the refusals, not another failure)
@@ -286,17 +347,24 @@ C11_MailVerdict ==
 \* a whole-message failure has the class of something the downstream did
 C11_Class ==
   (Over /\ result.k = "raise") =>
-     IF result.c = "P" THEN \E n \in Failures : hist[n].a \in {"p5", "e500"}
-     ELSE \E n \in Failures : hist[n].a \in {"t4", "bad", "drop", "stall"}
+     IF result.c = "P" THEN (\E n \in Failures : hist[n].a \in {"p5", "e500"}) \/ NoAuthOffered
+     ELSE \E n \in Failures : hist[n].a \in {"t4", "bad", "drop", "stall", "fail"}
 \* nothing went wrong (with THIS message: what happened to earlier ones on the same connection does not count)
 \* => everything delivered.  For the second message on a reused connection this is "a failed transaction is reset
 \* before the next message uses it" 
 C11_NoSpuriousFailure ==
-  (Over /\ Failures = {}) => result.k = "map" /\ \A i \in Rcpts : result.per[i] = "ok"
+  (Over /\ Failures = {} /\ ~NoAuthOffered) => result.k = "map" /\ \A i \in Rcpts : result.per[i] = "ok"
 \* every blocking step is inside a Timeout
 C14_Bounded == viol = {} /\ pc # "hung"
 \* the client never waits for a reply it did not ask for, nor leaves one unread before the next command's reply
 C10_QueueDrained == pc = "done" => (queued = <<>> \/ ~alive \/ mute \/ \E n \in 1..Len(hist) : hist[n].a = "bad")
+
+\* NOT one of the listed properties (DESIGN.md section 6, observations): with tls_required a message is handed over only
+\* on an encrypted connection.  The code as it is does not keep it: a reply to STARTTLS that is neither 220 nor an error
+\* leaves the session in clear text and the delivery goes on.
+X_TlsRequiredMeansEncrypted == (Tls = "req" /\ \E n \in 1..Len(hist) : hist[n].s = "mail") => enc
+\* AUTH is attempted at most once and only after the downstream offered it in the EHLO reply in force
+X_AuthOnlyWhenOffered == (\E n \in 1..Len(hist) : hist[n].s = "auth") => (Creds /\ PeerAuth /\ ext)
 
 \* the complete behaviours, for replay
 Emit == pc = "done" => PrintT(<<"BEH", hist, Append(done, result)>>)
